@@ -22,7 +22,9 @@ RULE = ('Hypothesis cases: root seed, chain of 1-6 delegate seeds, per-certifica
         'link), with the clock pinned; Certificate pack/unpack round trips for boundary field values. non-trivial = '
         'chain length >= 2, or a boundary timestamp, or a corruption; distinct by case parameters.')
 ASSUMPTIONS = ['clock pinned through functions.time; thresholds set through functions.flags["ts_threshold"] (restored)',
-               'vt/ed25519_ref.py decides every link and the final signature']
+               'vt/ed25519_ref.py decides every link and the final signature',
+               'may-delegate is the one-byte boolean the certificate builder writes (00 / ff); other byte values can only be hand-built and '
+               'are read differently by the chain lock (non-zero = may delegate) and Certificate.unpack (ff only)']
 
 sha = lambda b: hashlib.sha256(b).digest()  # noqa: E731
 
